@@ -2,6 +2,9 @@
 
 MC_LAYER = {"module": "MC_RustFFT.tla", "cfg": "MC_RustFFT.cfg", "cfg_quick": "MC_RustFFT_quick.cfg", "timeout": 900}
 
+MC_CALL = {"module": "MC_CallProtocol.tla", "cfg": "MC_CallProtocol.cfg", "timeout": 600}
+MC_PLAN = {"module": "MC_Planners.tla", "cfg": "MC_Planners.cfg", "cfg_quick": "MC_Planners_quick.cfg", "timeout": 3000}
+
 NT_PLAN = "a case is non-trivial when n >= 2 (the plan is not the trivial length-0/1 transform); distinct tuples are counted by the harness"
 
 PROPS = {
@@ -24,12 +27,12 @@ PROPS = {
         "variants": [{"name": "default"}, {"name": "relcheck", "profile": "relcheck"}],
     },
     "C04": {
-        "driver": "c04", "level": "model_checking", "mc": [MC_LAYER],
+        "driver": "c04", "level": "model_checking", "mc": [MC_LAYER, MC_PLAN],
         "rule": "built sweep: every (planner kind, element type, n, direction) planned and constructed on the real library, "
                 "n=0..N plus structured lengths; plan-only sweep: every (planner, n) plan report; " + NT_PLAN,
     },
     "C05": {
-        "driver": "c05", "level": "model_checking", "mc": [MC_LAYER],
+        "driver": "c05", "level": "model_checking", "mc": [MC_LAYER, MC_PLAN],
         "rule": "advertised scratch of every built (planner, elem, n, dir); plan reports of every (planner, n) for the no-naive-node clause; "
                 "operation counts of the portable planner through a counting element type for every n (two inputs each); " + NT_PLAN,
     },
@@ -39,7 +42,7 @@ PROPS = {
                 "round trips against n*x, and inverse(x) against conj(forward(conj x)); " + NT_PLAN,
     },
     "C07": {
-        "driver": "c07", "level": "model_checking", "mc": [MC_LAYER],
+        "driver": "c07", "level": "model_checking", "mc": [MC_LAYER, MC_CALL],
         "rule": "every (planner kind, f32/f64, n, entry point, k): k-chunk call compared chunk by chunk with the single-chunk result; NaN-poisoned neighbours "
                 "(isolation); non-trivial when k >= 2",
     },
@@ -50,12 +53,12 @@ PROPS = {
                 "differs from the reference run",
     },
     "C09": {
-        "driver": "c09", "level": "model_checking", "mc": [MC_LAYER],
+        "driver": "c09", "level": "model_checking", "mc": [MC_LAYER, MC_CALL],
         "rule": "every (planner kind, f32/f64, n, entry point, shape class): data in {n,kn,1,n-1,n+1,2n-1,2n+1,kn-1,kn+1,0}, output off by 1/n, scratch in "
                 "{0,adv-1,adv,adv+1}; the verdict Well/Ill is computed by TLC from the logged lengths; every case is non-trivial",
     },
     "C10": {
-        "driver": "c10", "level": "model_checking", "mc": [MC_LAYER],
+        "driver": "c10", "level": "model_checking", "mc": [MC_LAYER, MC_PLAN],
         "rule": "request histories over five pools of related (length, direction) pairs: all sequences of length 1 and 2, a seeded sample of length 3, random "
                 "sequences of length 4..12; each replayed on two planner objects of every kind x f32/f64; every returned transform checked against the reference DFT "
                 "(log bound), round-tripped with earlier opposite-direction transforms, re-used after the planners are dropped; twin outputs bit-identical "
@@ -94,7 +97,7 @@ PROPS = {
                 "counting, 24-byte wide; SIMD planners must decline each, the automatic planner must construct; every (type, n, direction); " + NT_PLAN,
     },
     "C15": {
-        "driver": "c15", "level": "model_checking", "mc": [MC_LAYER],
+        "driver": "c15", "level": "model_checking", "mc": [MC_LAYER, MC_CALL],
         "rule": "every (planner kind, f32/f64, n): immutable-input calls with k in 1..8 and ill-shaped classes; input bits before/after and read-only input pages; "
                 "every case is non-trivial",
     },
